@@ -178,6 +178,43 @@ def relevant_axioms(terms, axioms):
                         apps[i] = e
     return chosen
 
+class NativeCrash(Exception):
+    def __init__(s, sig): s.sig = sig
+
+def isolated(fn, *args, timeout=300):
+    """run fn(*args) in a forked child: a crash of the native library inside a replay must not take the checker down"""
+    import pickle, signal, select
+    r, w = os.pipe()
+    pid = os.fork()
+    if pid == 0:
+        os.close(r)
+        try:
+            out = pickle.dumps(('ok', fn(*args)))
+        except BaseException as e:
+            out = pickle.dumps(('exc', repr(e)))
+        try:
+            with os.fdopen(w, 'wb') as f: f.write(out)
+        finally:
+            os._exit(0)
+    os.close(w)
+    data = b''
+    t0 = time.time()
+    with os.fdopen(r, 'rb') as f:
+        while True:
+            rl, _, _ = select.select([f], [], [], 1.0)
+            if rl:
+                chunk = f.read()
+                data += chunk
+                break
+            if time.time() - t0 > timeout:
+                os.kill(pid, signal.SIGKILL); break
+    _, status = os.waitpid(pid, 0)
+    if os.WIFSIGNALED(status): raise NativeCrash(os.WTERMSIG(status))
+    if not data: raise NativeCrash(-1)
+    kind, val = pickle.loads(data)
+    if kind == 'exc': raise RuntimeError(val)
+    return val
+
 def load_known():
     p = os.path.join(VERIF, 'known_findings.json')
     if not os.path.exists(p): return []
@@ -190,10 +227,18 @@ def run_units(units, worker, jobs=None):
     if jobs == 1 or len(units) == 1:
         for u in units: total.merge(_safe(worker, u))
         return total
+    from concurrent.futures import ProcessPoolExecutor, as_completed
+    from concurrent.futures.process import BrokenProcessPool
     ctx = multiprocessing.get_context('fork')
-    with ctx.Pool(jobs) as pool:
-        for rep in pool.imap_unordered(_Safe(worker), units, chunksize=1):
-            total.merge(rep)
+    with ProcessPoolExecutor(jobs, mp_context=ctx) as pool:
+        futs = {pool.submit(_Safe(worker), u): u for u in units}
+        for f in as_completed(futs):
+            try:
+                total.merge(f.result())
+            except BrokenProcessPool:
+                total.errors.append("a worker process died (crash of native code or out of memory) while running unit %r" % (futs[f],))
+            except Exception as e:
+                total.errors.append("unit %r: %r" % (futs[f], e))
     return total
 
 class _Safe:
